@@ -14,10 +14,13 @@
     of subset 0 (`Spec.sameCountsList`, decidable, the hypothesis C16 uses too) rendering succeeds and nested
     JSON -> flat returns THAT subset's decoded values.  Subset 0 needs no hypothesis
     (`C09_decode_compressed_first_subset_partial`).
-  * The hypothesis on the counts is not an artefact: the coder accepts a compressed delayed replication factor
-    that is missing in a later subset (only the non-missing values must agree), the renderers read the count
-    from the values of the subset they show: `range(None)`.  `C09_compressed_missing_count_breaks` is the proved
-    negation on a witness.
+  * The theorems of THIS file carry the hypothesis `Spec.sameCountsList` per subset.  Since the repair of finding F24
+    (`decFactorC` strict: a compressed delayed replication factor must be present and identical in every subset) it is
+    DERIVED for decoded output - `Lemmas/CompFactorsWire.lean` (quietList), `Lemmas/CompFactorsLinks.lean`
+    (wireLinksOK) - and the hypothesis-free statements are `C09_decode_compressed_nested_json_to_flat_all_subsets_partial`
+    (Props/C09Factors.lean), `C09_decode_compressed_links_all_subsets_partial` and
+    `C09_decode_hierarchical_view_compressed` (Props/C09View.lean).  `C09_compressed_missing_count_breaks` (about the
+    coder BEFORE the repair, `decodeCompressedLax`) shows that without the repaired check the hypothesis is needed.
 -/
 import BufrModel.Props.C09
 import BufrModel.Lemmas.WireSimComp
@@ -227,7 +230,7 @@ theorem C09_compressed_missing_count_breaks :
   * `C09_decode_compressed_links_wire_partial`, `C09_decode_compressed_links_nested_json_to_flat_partial`,
     `C09_decode_message_compressed_links_nested_json_to_flat_partial` — compressed data, EVERY subset: one pass on
     subset 0, the shared tree holds every subset's values once, owners as the shared links say; nested JSON -> flat
-    returns each subset's values under `Spec.sameCountsList` (needed: `C09_compressed_missing_count_breaks`).
+    returns each subset's values under `Spec.sameCountsList`, which Props/C09View.lean discharges for decoded output.
   `C09_decode_hierarchical_view` (end of the file) is the statement over the union of the proved classes. -/
 
 theorem C09_links_of_sound {o : SubsetOut}
@@ -421,7 +424,8 @@ theorem C09_decode_compressed_links_wire_partial (t : List Desc) (hq : wireLinks
 
 /-- compressed data, EVERY subset: `wireAll` succeeds with the shared tree, and for every subset that carries the
     delayed replication counts of subset 0 (`Spec.sameCountsList` on the tree every reader sees) rendering succeeds
-    and nested JSON -> flat returns THAT subset's values.  The hypothesis is needed (`C09_compressed_missing_count_breaks`). -/
+    and nested JSON -> flat returns THAT subset's values.  The hypothesis is discharged for decoded output in
+    Props/C09View.lean (`C09_decode_compressed_links_all_subsets_partial`). -/
 theorem C09_decode_compressed_links_nested_json_to_flat_partial (t : List Desc) (hq : wireLinksOK t = true) (n : Nat)
     (bits rest : Bits) (outs : List SubsetOut) (o0 : SubsetOut)
     (h : decodeCompressed t n bits = .ok (outs, rest)) (h0 : outs.head? = some o0) :
@@ -624,7 +628,8 @@ def C09.viewClass (t : List Desc) : Bool := quietList false t || quietList true 
       204 left open across a replication body (unbalanced use: `quietList true` only); a replication body that is
       not a fixed point of the abstract interpretation after one round although every run of it is harmless.
     Compressed data: `C09_decode_compressed_nested_json_to_flat_partial` (quietList) and
-    `C09_decode_compressed_links_nested_json_to_flat_partial` (wireLinksOK), every subset, under `Spec.sameCountsList`. -/
+    `C09_decode_compressed_links_nested_json_to_flat_partial` (wireLinksOK), every subset, under `Spec.sameCountsList`;
+    WITHOUT that hypothesis: `C09_decode_hierarchical_view_compressed` (Props/C09View.lean). -/
 theorem C09_decode_hierarchical_view (t : List Desc) (hq : C09.viewClass t = true) (bits rest : Bits) (o : SubsetOut)
     (h : decodeSubset t bits = .ok (o, rest)) :
     ∃ w, wireRaw t o = .ok w ∧ w.st.next = o.vals.length ∧ idxList w.nodes = List.range o.vals.length ∧
